@@ -209,6 +209,18 @@ def selfcheck():
         '  if a not in self._v:\n'
         '   self._v[a] = [a, b]\n'
         '  return {"r": self._v[a]}\n')
+    src += (
+        ' def defects(self):\n'
+        '  d = getattr(self, "_d", None)\n'
+        '  if d is not None: return d\n'
+        '  d = {c: i for i, c in enumerate(self.occ)}\n'
+        '  self._d = d\n'
+        '  return d\n'
+        ' def setocc(self, i, c):\n'
+        '  self.occ[i] = c\n'
+        '  self._d = None\n'
+        ' def permute(self, p):\n'
+        '  self.occ = self.occ[p]\n')
     tree = attach_parents(ast.parse(src))
 
     class _CI:
@@ -227,5 +239,141 @@ def selfcheck():
         for f in check_method(None, cm):
             if not f.ok:
                 got.setdefault(cm.name, set()).add(f.rule)
+    class _M:
+        def find_method(self, c, n):
+            return c, c.methods.get(n)
+    mas = find_memo_attrs(_M(), ci)
+    inv = {f.text.split(' writes')[0]: f.ok for ma in mas for f in check_invalidation(_M(), ci, ma)}
+    if [m.attr for m in mas] != ['_d'] or inv != {'X.setocc': True, 'X.permute': False}:
+        return False, {'memo': [m.attr for m in mas], 'inv': inv}
     return got == {'net': {'cache-entry-not-mutated', 'cache-entry-not-returned', 'cache-key-complete'},
                    'val': {'cache-key-complete', 'cache-entry-not-returned'}}, got
+
+
+# ---------------------------------------------------------------- memoised derived attributes and their invalidation
+def attr_writes(fn, s):
+    """attributes of ``self`` that ``fn`` writes in any way: rebinding, item / slice store, augmented assignment, in-place
+    container methods, setattr(self, ...)."""
+    out = {}
+    for n in walk_local(fn):
+        if _is_self_attr(n, s) and isinstance(n.ctx, ast.Store):
+            out.setdefault(n.attr, n)
+        elif isinstance(n, ast.Subscript) and isinstance(n.ctx, ast.Store):
+            b = n.value
+            while isinstance(b, ast.Subscript):
+                b = b.value
+            if _is_self_attr(b, s):
+                out.setdefault(b.attr, n)
+        elif isinstance(n, ast.AugAssign):
+            b = n.target
+            while isinstance(b, ast.Subscript):
+                b = b.value
+            if _is_self_attr(b, s):
+                out.setdefault(b.attr, n)
+        elif isinstance(n, ast.Call) and isinstance(n.func, ast.Attribute) and n.func.attr in alias.INPLACE_METHODS:
+            b = n.func.value
+            while isinstance(b, ast.Subscript):
+                b = b.value
+            if _is_self_attr(b, s):
+                out.setdefault(b.attr, n)
+        elif isinstance(n, ast.Call) and dotted(n.func) == 'setattr' and len(n.args) >= 2 and isinstance(n.args[0], ast.Name) \
+                and n.args[0].id == s and isinstance(n.args[1], ast.Constant):
+            out.setdefault(str(n.args[1].value), n)
+    return out
+
+
+def attr_reads(fn, s):
+    out = set()
+    for n in walk_local(fn):
+        if _is_self_attr(n, s) and isinstance(n.ctx, ast.Load):
+            out.add(n.attr)
+        if isinstance(n, ast.Call) and dotted(n.func) == 'getattr' and len(n.args) >= 2 and isinstance(n.args[0], ast.Name) \
+                and n.args[0].id == s and isinstance(n.args[1], ast.Constant):
+            out.add(str(n.args[1].value))
+    return out
+
+
+def _state_attr_of_test(fn, test, s):
+    """the attribute M when ``test`` asks whether a remembered value exists: ``self.M is not None``, ``self.M``,
+    ``hasattr(self, 'M')``, ``getattr(self, 'M', None) is not None`` -- directly or through a local bound once to it."""
+    def resolve(e):
+        if isinstance(e, ast.Name):
+            defs = [a for a in walk_local(fn) if isinstance(a, ast.Assign) and len(a.targets) == 1 and isinstance(a.targets[0], ast.Name)
+                    and a.targets[0].id == e.id and a.lineno < test.lineno]
+            if len(defs) == 1:
+                return defs[0].value
+        return e
+
+    def attr_of(e):
+        e = resolve(e)
+        if _is_self_attr(e, s):
+            return e.attr
+        if isinstance(e, ast.Call) and dotted(e.func) in ('getattr', 'hasattr') and len(e.args) >= 2 and isinstance(e.args[0], ast.Name) \
+                and e.args[0].id == s and isinstance(e.args[1], ast.Constant):
+            return str(e.args[1].value)
+        return None
+    t = test
+    if isinstance(t, ast.Compare) and len(t.ops) == 1 and isinstance(t.ops[0], (ast.IsNot, ast.NotEq)) \
+            and isinstance(t.comparators[0], ast.Constant) and t.comparators[0].value is None:
+        return attr_of(t.left)
+    if isinstance(t, (ast.Name, ast.Attribute, ast.Call)):
+        return attr_of(t)
+    return None
+
+
+class MemoAttr:
+    def __init__(self, ci, meth, fn, attr, guard):
+        self.ci, self.meth, self.fn, self.attr, self.guard = ci, meth, fn, attr, guard
+        self.sources = set()
+
+
+def find_memo_attrs(model, ci):
+    """attributes that a method computes once and hands back on later calls:  ``if <self.M exists>: return ...`` early in the
+    method, ``self.M = <value>`` later in it.  ``sources`` = the other attributes of self the method (and the methods it
+    calls on self) reads: what the remembered value was computed from."""
+    from . import parity
+    out = []
+    for name, fn in ci.methods.items():
+        if ci.kind(name) != 'instance' or not fn.args.args or name == '__init__':
+            continue
+        s = fn.args.args[0].arg
+        for st in fn.body:
+            if not (isinstance(st, ast.If) and not st.orelse and st.body and isinstance(st.body[-1], ast.Return)):
+                continue
+            m = _state_attr_of_test(fn, st.test, s)
+            if m is None:
+                continue
+            later = [a for a in walk_local(fn) if _is_self_attr(a, s) and isinstance(a.ctx, ast.Store) and a.attr == m and a.lineno > st.lineno]
+            if not later:
+                continue
+            ma = MemoAttr(ci, name, fn, m, st)
+            for callee in parity.ctor_path(model, ci, name):
+                o, f2 = model.find_method(ci, callee)
+                if f2 is not None and f2.args.args:
+                    ma.sources |= attr_reads(f2, f2.args.args[0].arg)
+            ma.sources.discard(m)
+            out.append(ma)
+    return out
+
+
+def check_invalidation(model, ci, ma):
+    """every method (other than the constructor and the memoising method) that writes a source of the remembered value also
+    resets / rewrites the remembered value -- itself or through a method it calls on self."""
+    from . import parity
+    for name, fn in ci.methods.items():
+        if ci.kind(name) != 'instance' or not fn.args.args or name in ('__init__', ma.meth):
+            continue
+        s = fn.args.args[0].arg
+        w = attr_writes(fn, s)
+        touched = sorted(a for a in w if a in ma.sources)
+        if not touched:
+            continue
+        resets = False
+        for callee in parity.ctor_path(model, ci, name):
+            o, f2 = model.find_method(ci, callee)
+            if f2 is not None and f2.args.args and callee != ma.meth and ma.attr in attr_writes(f2, f2.args.args[0].arg):
+                resets = True
+        yield Finding('memo-invalidated-by-writers', w[touched[0]],
+                      '%s.%s writes %s, from which %s.%s computes the remembered self.%s' % (ci.name, name, ', '.join(touched), ci.name, ma.meth, ma.attr),
+                      resets, '' if resets else 'self.%s is not reset here: after this call %s.%s still returns the value computed before the change'
+                      % (ma.attr, ci.name, ma.meth))
